@@ -95,6 +95,18 @@ Section Term.
   Lemma tw_case : forall scrut targs cls ty, TW scrut -> Forall (fun c => TW (clause_body c)) cls -> TW (FCase scrut targs cls ty).
   Proof.
     intros scrut targs cls ty Hsc Hcl G S cont t st s st' H Hg Hty Htd Hrk Hfv Hbd HS HU HK Hf. rewrite wc_unfold in H.
+    (* the capture check of the repaired translation does not fire under the guard *)
+    apply (guard_capture_KT D C defs U _ _ _ _ _ _ _ _ _ _ H) in HK as H'.
+    2:{ intros z Hz. apply in_flat_map in Hz. destruct Hz as [[pl x names ctx body] [Hc Hz]]. split.
+        - rewrite risk_case in Hrk. apply orb_false_elim in Hrk. destruct Hrk as [Hrc _].
+          assert (Hr1 : risk_cl cd S (FClause pl x names ctx body) = false).
+          { destruct (risk_cl cd S (FClause pl x names ctx body)) eqn:E; [|reflexivity].
+            assert (existsb (risk_cl cd S) cls = true) by (apply existsb_exists; eexists; split; [exact Hc | exact E]). congruence. }
+          simpl in Hr1. apply orb_false_elim in Hr1. destruct Hr1 as [Hr1 _].
+          exact (inter_nonempty_false _ _ Hr1 z Hz).
+        - intros [_ Hn]. apply Hn. apply Hbd. simpl. apply in_or_app. right. apply in_flat_map.
+          exists (FClause pl x names ctx body). split; [exact Hc|]. simpl. apply in_or_app. left. exact Hz. }
+    clear H. rename H' into H.
     apply wc_case_inv in H. destruct H as [cont1 [st0 [cls' [st1 [sty0 [Hsh [Ec [Esty Ew]]]]]]]].
     rewrite tg_case in Hg. apply andb_prop in Hg. destruct Hg as [Hgs Hg].
     assert (Etyo : tyo scrut = Some (compile_ty sty0)) by (unfold tyo; rewrite Esty; reflexivity).
